@@ -68,6 +68,11 @@ Numbering(b, a, new, prot) ==
 RecordedName(b, new, prot, recorded) ==
   MustProtect(b.live, new, prot) => ("real" \in recorded /\ "cfg" \notin recorded)
 
+\* The pending updates of <name> are exactly the files ._cfgNNNN_<name> with four decimal digits.  Any
+\* other file beside it - however similar its name (._cfg0001, ._cfg12_<name>, ._cfgabcd_<name>,
+\* ._cfg0001_<other>, ...) - is a stray: it takes no part in the decision table and is left alone.
+StraysKept(before, after) == before = after
+
 \* unmerge
 MustKeep(live, rec, prot) == live # None /\ prot /\ live # rec
 UnmergeKept(b, a, rec, prot) == MustKeep(b.live, rec, prot) => a.live = b.live
